@@ -2699,7 +2699,11 @@ func (s *Server) serveConnCounted(c net.Conn, countConcurrency bool) error {
 		timeoutResponse = ctx.timeoutResponse
 		if timeoutResponse != nil {
 			// Acquire a new ctx because the old one will still be in use by the timeout out handler.
+			reqTime := ctx.time
 			ctx = s.acquireCtx(c)
+			// The new ctx stands for the same request: the idle time of the
+			// connection is derived from it below.
+			ctx.time = reqTime
 			timeoutResponse.CopyTo(&ctx.Response)
 			if isHead {
 				ctx.Response.SkipBody = true
